@@ -6,6 +6,7 @@
 RecJudge judge_record(const CallView &cv, const RunResult &r, bool require_before_exec) {
     RecJudge j;
     CallCtx ctx = make_ctx(cv.w, *cv.op, r, cv.opi);
+    if (cv.batch_threads) ctx.threads_hi = cv.batch_threads;
     Expected e = model_call(cv.w, *cv.op, ctx);
     j.exp = e;
     std::string at = "call #" + std::to_string(cv.opi) + ": ";
